@@ -355,7 +355,7 @@ func corpusSide(r *mon.Run) {
 		}
 		r.Guard("corpus:"+e.File, func() {
 			id := keys.P(e.Identity).Identity
-			res := ax.DecryptBytes(file, e.Armored, id)
+			res := decryptHeldAnyhow(file, e.Armored, id)
 			r.Eval(1)
 			r.DistinctBytes(file)
 			got := sha256.Sum256(res.Plain)
@@ -393,7 +393,7 @@ func vectorSide(r *mon.Run) {
 		}
 		v := v
 		r.Guard("vector:"+v.Name, func() {
-			res := ax.DecryptBytes(v.File, v.Armored, ids...)
+			res := decryptHeldAnyhow(v.File, v.Armored, ids...)
 			r.Eval(1)
 			r.DistinctBytes(v.File)
 			h := sha256.Sum256(res.Plain)
@@ -414,7 +414,7 @@ func vectorSide(r *mon.Run) {
 	if err1 == nil && err2 == nil {
 		ids, err := age.ParseIdentities(bytes.NewReader(kf))
 		if err == nil {
-			res := ax.DecryptBytes(ex, false, ids...)
+			res := decryptHeldAnyhow(ex, false, ids...)
 			r.Eval(1)
 			if !res.Clean() || len(res.Plain) == 0 {
 				r.Violate("example.age", "testdata/example.age no longer decrypts with testdata/example_keys.txt: "+res.String(), nil)
@@ -513,7 +513,7 @@ func referenceFilesSide(r *mon.Run) {
 			}
 			seen[name] = true
 			r.Guard(fmt.Sprintf("ref-file:%v:%d", c.list, c.length), func() {
-				res := ax.DecryptBytes(file, c.armored != 0, p.Identity)
+				res := decryptHeldAnyhow(file, c.armored != 0, p.Identity)
 				r.Eval(1)
 				if !res.Clean() || !bytes.Equal(res.Plain, pt) {
 					r.Violate(fmt.Sprintf("ref-file-rejected:%c:armor%d", p.Kind, c.armored),
@@ -618,7 +618,7 @@ func genCorpus(dir string) {
 	// cross-check before freezing: every file must open with BOTH implementations
 	for _, e := range ents {
 		file, _ := os.ReadFile(filepath.Join(dir, e.File))
-		res := ax.DecryptBytes(file, e.Armored, keys.P(e.Identity).Identity)
+		res := decryptHeldAnyhow(file, e.Armored, keys.P(e.Identity).Identity)
 		h := sha256.Sum256(res.Plain)
 		if !res.Clean() || hex.EncodeToString(h[:]) != e.PlainHash {
 			panic("corpus cross-check (age) failed for " + e.File + ": " + res.String())
